@@ -373,8 +373,23 @@ func ruleNoJoinBeforeRelease(c *core.Ctx, rule string, minGo, minChecked int, pk
 					}
 				})
 			}
+			// or which calls in the top function run it synchronously
+			var callSites []ssa.Instruction
 			if f != top && len(regs) == 0 {
-				continue // a literal that is called or stored: its waits are judged where R16.4 looks
+				core.Instrs(top, func(ins ssa.Instruction) {
+					cl, ok := ins.(*ssa.Call)
+					if !ok {
+						return
+					}
+					for _, o := range core.Origins(cl.Call.Value) {
+						if mc, ok := o.(*ssa.MakeClosure); ok && mc.Fn == ssa.Value(f) {
+							callSites = append(callSites, ins)
+						}
+					}
+				})
+				if len(callSites) == 0 {
+					continue // a literal that is stored or handed on: its waits are judged where R16.4 looks
+				}
 			}
 			core.Instrs(f, func(ins ssa.Instruction) {
 				u, ok := ins.(*ssa.UnOp)
@@ -407,6 +422,27 @@ func ruleNoJoinBeforeRelease(c *core.Ctx, rule string, minGo, minChecked int, pk
 						c.Check(p == nil, rule, core.FnName(top), construct, core.InstrPos(ins),
 							"every path from starting the helper to this wait closes one of its inputs or cancels its context",
 							"the function waits for its helper goroutine without having told it to stop: the helper is still blocked on its input (or on the context) and the wait never ends").Path = c.P.PathStrings(p)
+						continue
+					}
+					if len(callSites) > 0 {
+						// in a literal the top function calls: judged at the calls
+						if core.FindPath(f, nil, isInstr(ins), rel) == nil {
+							c.Check(true, rule, core.FnName(top), construct+" (in a called literal)", core.InstrPos(ins), "the literal releases the helper before waiting", "")
+							continue
+						}
+						var bad []ssa.Instruction
+						for _, cs := range callSites {
+							p := core.FindPathSkipping(top, h.goInstr, isInstr(cs), rel, cancelledEdge(h))
+							if h.goInstr.Parent() != top {
+								p = core.FindPathSkipping(top, nil, isInstr(cs), rel, cancelledEdge(h))
+							}
+							if p != nil {
+								bad = p
+							}
+						}
+						c.Check(bad == nil, rule, core.FnName(top), construct+" (in a called literal)", core.InstrPos(ins),
+							"every path from starting the helper to a call of this literal closes one of its inputs or cancels its context",
+							"the function waits for its helper goroutine without having told it to stop: the helper is still blocked on its input (or on the context) and the wait never ends").Path = c.P.PathStrings(bad)
 						continue
 					}
 					// in a deferred literal
